@@ -92,6 +92,12 @@ func (st *Transfer) hashSearch(targets []target, tagTable map[uint16]int, head r
 	tagHits := 0
 Outer:
 	for {
+		if fi.Size() == 0 {
+			// Nothing to search in an empty file (rsync/match.c:match_sums
+			// only calls hash_search if len > 0); update[0] below would be
+			// out of range.
+			break
+		}
 		tag := rsyncchecksum.Tag2(uint16(s1), uint16(s2))
 		var sum2 []byte
 		doneCsum2 := false
